@@ -88,7 +88,7 @@ def model_check(module, cfg_path, workdir, workers=16, dump=False, heap="8g", ti
     return res
 
 
-_KV = re.compile(r'(\w+) \|-> (<<[^>]*>>|"[^"]*"|-?\d+|TRUE|FALSE)')
+_KV = re.compile(r'(\w+) \|->\s+(<<[^>]*>>|"[^"]*"|-?\d+|TRUE|FALSE)')
 
 
 def parse_dump(path, var="st"):
